@@ -3,6 +3,7 @@ CONSTANTS
   KMax = 2
   MaxSteps = 5
   WithObs = TRUE
+  PurgeByKey = FALSE
   PurgeLast = FALSE
   Kinds = {"pos", "fail", "cut", "ask"}
 INIT Init
